@@ -94,6 +94,8 @@ type c17Case struct {
 	Loads []string `json:"loads,omitempty"`
 	// FailedLoad: a refused document (see refusedExtension) is loaded before the requests
 	FailedLoad bool `json:"failed_load,omitempty"`
+	// API: the schema is given to the root through the Go API (BuildAPI) instead of as SDL text
+	API bool `json:"api,omitempty"`
 }
 
 type resolverRoot struct{}
@@ -248,8 +250,23 @@ func checkC17(c *c17Case) (ds []hx.Discrepancy, info map[string]bool) {
 				_ = root.ResolveString(q, "", nil)
 			}
 		}
-	} else if err := root.ParseString(sdl); err != nil {
-		return []hx.Discrepancy{{Kind: "setup", Detail: fmt.Sprintf("schema rejected: %v\n%s", err, sdl)}}, info
+	} else {
+		built := false
+		if c.API {
+			err, usable := BuildAPI(root, c.Schema)
+			if usable && err != nil {
+				return []hx.Discrepancy{{Kind: "api-schema-rejected", Detail: fmt.Sprintf("the schema built with the Go API is rejected: %v\n(the same schema as SDL)\n%s", err, sdl)}}, info
+			}
+			built = usable
+			if built {
+				info["schema-built-with-the-go-api"] = true
+			}
+		}
+		if !built {
+			if err := root.ParseString(sdl); err != nil {
+				return []hx.Discrepancy{{Kind: "setup", Detail: fmt.Sprintf("schema rejected: %v\n%s", err, sdl)}}, info
+			}
+		}
 	}
 	if c.FailedLoad {
 		// a document that extends every type it can and is then refused (in validation, after the
@@ -700,8 +717,9 @@ func TestC17(t *testing.T) {
 			}
 		}
 		failed := rapid.IntRange(0, 3).Draw(rt, "refusedLoad") == 0
+		api := loads == nil && rapid.IntRange(0, 2).Draw(rt, "goAPI") == 0
 		for _, rk := range []string{"reflection", "resolver", "any"} {
-			one(rt.Fatalf, &c17Case{Schema: s, RootKind: rk, InclDep: inc, Then: then, Loads: loads, FailedLoad: failed})
+			one(rt.Fatalf, &c17Case{Schema: s, RootKind: rk, InclDep: inc, Then: then, Loads: loads, FailedLoad: failed, API: api})
 		}
 	})
 }
